@@ -78,6 +78,8 @@ def _menu(driver, family, role, dim, form, law):
         m = ["ConjugateApprox", "ConjugateApprox", "MH"]
     elif role == "field":          # Posterior with Gaussian prior and linear-Gaussian likelihood
         m = ["LinearRTO", "LinearRTO", "MH", "CWMH", "MALA", "PCN" if hg else "pCN"] + (["NUTS", "ULA"] if hg else ["ULA"])
+    elif role == "field_multi":    # MultipleLikelihoodPosterior: several different linear-Gaussian likelihoods (pCN refuses it)
+        m = ["LinearRTO"] * 4 + ["MH", "CWMH"]       # (gradient samplers are refused: the fixed Gamma factors have no gradient)
     elif role == "field_lmrf":
         m = ["UGLA", "UGLA", "MH", "CWMH"]
     elif role == "data":           # conditioned Gaussian distribution
@@ -85,7 +87,7 @@ def _menu(driver, family, role, dim, form, law):
     elif role in ("chain_inner", "chain_fork"):      # fork: two children -> MultipleLikelihoodPosterior, which pCN refuses
         m = ["MH", "CWMH"] + ([("PCN" if hg else "pCN")] if role == "chain_inner" else [])
         if form == "model":
-            m += ["LinearRTO", "LinearRTO", "MALA"] + (["NUTS"] if hg else [])
+            m += ["LinearRTO"] * (4 if role == "chain_fork" else 2) + ["MALA"] + (["NUTS"] if hg else [])
     elif role == "chain_last":
         m = (["Direct", "Direct"] if hg else ["DirectLike", "DirectLike"]) + ["MH", "CWMH", "MALA"] + (["NUTS"] if hg else [])
     elif role == "s3_d":
@@ -103,7 +105,7 @@ def _menu(driver, family, role, dim, form, law):
     return m
 
 def _gen_model(rng, driver, law, force_family=None):
-    fam = force_family or rng.choice(["hier", "hier", "hier", "chain", "chain", "scalar3"])
+    fam = force_family or rng.choice(["hier", "hier", "hier", "chain", "chain", "scalar3", "multi", "multi"])
     if fam == "hier":
         prior = rng.choice(["cov", "prec", "gmrf"] if law else ["cov", "prec", "gmrf", "gmrf", "lmrf"])
         c = {"family": "hier", "prior": prior, "lik": rng.choice(["cov", "prec"]), "n": rng.randint(2, 6), "m": rng.randint(2, 7),
@@ -125,6 +127,18 @@ def _gen_model(rng, driver, law, force_family=None):
         roles = {nm: ("chain_last" if nchild[i] == 0 else "chain_inner" if nchild[i] == 1 else "chain_fork") for i, nm in enumerate(names)}
         dims = dict(zip(names, c["dims"]))
         form = c["form"]
+    elif fam == "multi":
+        J = rng.choice([2, 2, 2, 3])
+        m0 = rng.randint(2, 6)
+        ms = [m0] * J if rng.random() < 0.5 else [rng.randint(2, 6) for _ in range(J)]
+        c = {"family": "multi", "n": rng.randint(2, 6), "ms": ms, "hyper_d": rng.choice([True, False]),
+             "liks": [rng.choice(["cov", "prec"]) for _ in range(J)], "shift": rng.choice([0, 1]),
+             "lengths": "equal" if len(set(ms)) == 1 else "unequal", "order": rng.randrange(10 ** 6)}
+        roles = {"x": "field_multi", **{f"l{j + 1}": "hyper" for j in range(J)}}
+        if c["hyper_d"]:
+            roles["d"] = "hyper"
+        dims = {k: 1 for k in roles}; dims["x"] = c["n"]
+        form = None
     else:
         c = {"family": "scalar3"}
         roles = {"x": "s3_x", "d": "s3_d", "s": "s3_s"}
@@ -136,6 +150,8 @@ def _gen_model(rng, driver, law, force_family=None):
         if fam == "hier" and c["prior"] == "gmrf":
             menu = [k for k in menu if k not in ("PCN", "pCN")]      # pCN refuses a GMRF prior (not a Gaussian instance)
         kind = rng.choice(menu)
+        if force_family == "multi" and role == "field_multi":
+            kind = "LinearRTO"                                        # the guaranteed multi-likelihood RTO cases of every run
         samplers[nm] = [kind, _sampler_params(kind, "hyper" if role.startswith("hyper") or role == "s3_d" else "field")]
         nss[nm] = rng.choice([1, 1, 2, 3, 4])
     c["samplers"] = samplers
@@ -155,27 +171,27 @@ def cases(tier, seed):
         return int(base * 3.2 / (sweeps + 1.2))
     trace, law = [], []
     for i in range(n_hg_trace):
-        fam = ["hier", "chain", "scalar3"][i] if i < 3 else None
+        fam = ["hier", "chain", "scalar3", "multi", "multi"][i] if i < 5 else None
         c = _gen_model(rng, "hg", False, fam)
         c.update({"kind": "hg_trace", "sched": [rng.choice([0, 3, 5, 10]), rng.randint(4, 8), rng.choice([0, 3, 5])] if tier == "quick" else
                   [rng.choice([0, 5, 10, 20]), rng.randint(5, 14), rng.choice([0, 4, 8])], "idx": i})
         trace.append(c)
     for i in range(n_lg_trace):
-        fam = ["hier", "chain", "scalar3"][i] if i < 3 else None
+        fam = ["hier", "chain", "scalar3", "multi", "multi"][i] if i < 5 else None
         c = _gen_model(rng, "lg", False, fam)
         c.update({"kind": "lg_trace", "sched": [rng.choice([0, 0, 3, 6]), rng.randint(4, 8), rng.choice([0, 3, 5])] if tier == "quick" else
                   [rng.choice([0, 0, 5, 12]), rng.randint(5, 14), rng.choice([0, 4, 8])],
                   "tuple_keys": rng.choice([True, False]), "idx": i})
         trace.append(c)
     for i in range(n_hg_law):
-        fam = ["hier", "chain", "scalar3"][i] if i < 3 else None
+        fam = ["hier", "chain", "scalar3", "multi", "multi"][i] if i < 5 else None
         c = _gen_model(rng, "hg", True, fam)
         sw = rng.choice([1, 2, 3, 5])
         Kc = max(300, _K(K_hg, sw) // (2 if "NUTS" in [v[0] for v in c["samplers"].values()] else 1))
         c.update({"kind": "hg_law", "K": Kc, "sweeps": sw, "idx": i})
         law.append(c)
     for i in range(n_lg_law):
-        fam = ["hier", "chain", "scalar3"][i] if i < 3 else None
+        fam = ["hier", "chain", "scalar3", "multi", "multi"][i] if i < 5 else None
         c = _gen_model(rng, "lg", True, fam)
         sw = rng.choice([1, 2, 3, 5])
         c.update({"kind": "lg_law", "K": _K(K_lg, sw), "sweeps": sw, "idx": i})
@@ -197,7 +213,7 @@ def crash_config(case):
 
 def _cfg(case, **extra):
     c = {"driver": "HybridGibbs" if case["kind"].startswith("hg") else "Gibbs", "family": case["family"]}
-    for k in ("prior", "lik", "data", "form", "shape"):
+    for k in ("prior", "lik", "data", "form", "shape", "lengths"):
         if k in case:
             c[k] = case[k]
     c.update(extra)
@@ -247,7 +263,7 @@ def build_model(case):
         def target(data=None):
             if case["data"] == "block":
                 return J
-            return J(y=y_obs if data is None else data)
+            return J(y=y_obs if data is None else data["y"])
         return ref, target, y_obs
     if fam == "chain":
         names, dims, parents = case["names"], case["dims"], case["parents"]
@@ -271,6 +287,38 @@ def build_model(case):
             dists.append(D.Gaussian(mean, cov=svars[j], geometry=dims[j], name=names[j]))
         J = D.JointDistribution(*dists)
         return ref, (lambda data=None: J), None
+    if fam == "multi":
+        n, ms = case["n"], case["ms"]
+        J = len(ms)
+        As = [rs.standard_normal((m, n)) / math.sqrt(n) + np.eye(m, n) * rs.uniform(0.5, 1.5) for m in ms]
+        x0 = rs.standard_normal(n) if case.get("shift") else np.zeros(n)
+        a_l = [float(rs.uniform(2.5, 5.0)) for _ in ms]; b_l = [float(rs.uniform(0.3, 3.0)) for _ in ms]
+        a_d, b_d, d_fixed = float(rs.uniform(2.5, 5.0)), float(rs.uniform(1.0, 3.0)), float(rs.uniform(0.5, 2.0))
+        tmp = R.Multi(n, As, x0, a_l, b_l, case["hyper_d"], a_d, b_d, d_fixed)
+        v = tmp.draw(rs)
+        ys = [v[k] for k in tmp.data_names]
+        ref = R.Multi(n, As, x0, a_l, b_l, case["hyper_d"], a_d, b_d, d_fixed, ys=ys)
+        dists = {}
+        if case["hyper_d"]:
+            dists["d"] = D.Gamma(a_d, b_d, name="d")
+            dists["x"] = D.Gaussian(x0, cov=lambda d: 1.0 / d, name="x")
+        else:
+            dists["x"] = D.Gaussian(x0, cov=1.0 / d_fixed, name="x")
+        for j in range(J):
+            ln, yn = ref.lnames[j], ref.data_names[j]
+            dists[ln] = D.Gamma(a_l[j], b_l[j], name=ln)
+            Aj = cuqi.model.LinearModel(As[j])              # every data set has its own forward model ...
+            if case["liks"][j] == "cov":                     # ... and its own noise-precision block
+                dists[yn] = D.Gaussian(Aj, cov=_named_lambda(ln, f"1.0/{ln}", {}), name=yn)
+            else:
+                dists[yn] = D.Gaussian(Aj, prec=_named_lambda(ln, f"{ln}", {}), name=yn)
+        order = sorted(dists)
+        core.rng_for("order", case["order"]).shuffle(order)
+        Jd = D.JointDistribution(*[dists[k] for k in order])
+        def target(data=None):
+            data = data if data is not None else dict(zip(ref.data_names, ys))
+            return Jd(**{k: data[k] for k in ref.data_names})
+        return ref, target, ys
     if fam == "scalar3":
         mu, sig2 = float(rs.uniform(-1, 2)), float(rs.uniform(0.5, 2.0))
         lo, hi = 1.0, float(rs.choice([20.0, 100.0]))
@@ -299,6 +347,8 @@ def make_exp_sampler(kind, params, initial_point):
     if initial_point is not None:
         if isinstance(initial_point, float):      # scalar form used by the library's own tests: MH(initial_point=3)
             kw["initial_point"] = initial_point
+        elif isinstance(initial_point, np.ndarray) and not initial_point.flags["OWNDATA"]:
+            kw["initial_point"] = initial_point       # a (strided) view of a caller's buffer, handed over as it is
         else:
             kw["initial_point"] = np.array(initial_point, dtype=float, copy=True)
     return getattr(M, kind)(**kw)
@@ -543,9 +593,17 @@ def run_hg_trace(case, ctx):
     # scalar initial points as in the library's own HybridGibbs tests (MH(initial_point=3)); only for the all-scalar model
     scalar_init = {k: (case["family"] == "scalar3" and kinds[k] in ("MH", "PCN", "MALA") and rs.uniform() < 0.3) for k in names_ref}
     init_form = "scalar" if any(scalar_init[k] and give_init[k] for k in names_ref) else "array"
+    # half of the array initial points are strided views of a caller-owned buffer (which must stay untouched)
+    buffers = {}
+    for k in names_ref:
+        if give_init[k] and not scalar_init[k] and rs.uniform() < 0.5:
+            buf = np.full(2 * len(init[k]) + 1, 7.25); buf[1::2] = init[k]
+            buffers[k] = (buf, buf.copy())
     def _ip(k):
         if not give_init[k]:
             return None
+        if k in buffers:
+            return buffers[k][0][1::2]
         return float(init[k][0]) if scalar_init[k] else init[k]
     kind_, strategy = core.outcome(lambda: {k: make_exp_sampler(v[0], v[1], _ip(k)) for k, v in case["samplers"].items()})
     if kind_ != "value":
@@ -665,16 +723,21 @@ def run_hg_trace(case, ctx):
             before_call = {k: v.copy() for k, v in checker.cur.items()}
             n_hist = len(checker.history)
             k_, val = core.outcome(getattr(G, phase), N)
-            if k_ == "refused":
-                ctx.refused(f"{phase} mid-run", val); ctx.count("refused_mid_run"); ctx.note("mid_run_refusal", repr(val)); break
-            if k_ == "crashed":
-                ctx.violation("crash", _cfg(case, exc=type(val).__name__, phase=phase), repr(val)); break
+            if k_ != "value":
+                # construction validated every conditional target: an exception out of a sweep is a failure, not a refusal
+                ctx.violation("failure_mid_run", _cfg(case, exc=type(val).__name__, phase=phase, samplers="/".join(kinds[k] for k in names)),
+                              f"{phase}({N}) raised {val!r} after {checker.sweeps_checked} checked sweeps; blocks {kinds}"); break
             total += N
             if len(checker.history) - n_hist != N:
                 ctx.violation("sweep_count", _cfg(case, phase=phase), f"{phase}({N}) performed {len(checker.history) - n_hist} sweeps")
             if pi > 0 and n_hist > 0:
                 # continuation: the first sweep of this call was checked against the values left by the previous call
                 ctx.count("continuation_checked")
+        for k, (buf, buf0) in buffers.items():
+            ctx.count("caller_arrays_unchanged_checked")
+            if not np.array_equal(buf, buf0):
+                ctx.violation("caller_array_modified", _cfg(case, sampler=kinds[k], what="initial_point"),
+                              f"the buffer behind the initial point of {k} changed during the run: {buf0.tolist()} -> {buf.tolist()}")
         # returned arrays
         k_, samples = core.outcome(G.get_samples)
         if k_ == "value" and stored_copies:
@@ -794,10 +857,12 @@ def run_lg_trace(case, ctx):
             n_hist = len(checker.history)
             expected_start = {k: v.copy() for k, v in checker.cur.items()}
             k_, out = core.outcome(G.sample, Ns, Nb_)
-            if k_ == "refused":
+            if k_ == "refused" and checker.sweeps_checked == 0:
+                # the legacy driver builds its block samplers lazily: an incompatible assignment is refused in the first sweep
                 ctx.refused("sample mid-run", out); ctx.count("refused_mid_run"); ctx.note("mid_run_refusal", repr(out)); break
-            if k_ == "crashed":
-                ctx.violation("crash", _cfg(case, exc=type(out).__name__), repr(out)); break
+            if k_ != "value":
+                ctx.violation("failure_mid_run", _cfg(case, exc=type(out).__name__, call=ci, samplers="/".join(kinds[k] for k in names)),
+                              f"sample({Ns},{Nb_}) raised {out!r} after {checker.sweeps_checked} checked sweeps; blocks {kinds}"); break
             if len(checker.history) - n_hist != Ns + Nb_:
                 ctx.violation("sweep_count", _cfg(case), f"sample({Ns},{Nb_}) performed {len(checker.history) - n_hist} sweeps")
             # continuation / start: the dict handed to the first sweep of this call
@@ -839,7 +904,8 @@ def _law_replicates(case, ctx, K, rs):
     ref, target_fn, y_fixed = build_model(case)
     hg = case["kind"] == "hg_law"
     sweeps = case["sweeps"]
-    geweke = case["family"] == "hier" and case["data"] == "observed"
+    data_names = ["y"] if (case["family"] == "hier" and case["data"] == "observed") else list(getattr(ref, "data_names", []))
+    geweke = bool(data_names)      # data observed: draw (parameters, data) jointly, condition on that data, sweep, test the joint law
     states, failures = [], 0
     G_legacy = None
     if not hg and not geweke:
@@ -847,7 +913,7 @@ def _law_replicates(case, ctx, K, rs):
     for r in range(K):
         v = ref.draw(rs)
         start = {k: _arr(v[k]) for k in ref.names}
-        target = target_fn(v["y"]) if geweke else target_fn()
+        target = target_fn({k: v[k] for k in data_names}) if geweke else target_fn()
         try:
             if hg:
                 strategy = {k: make_exp_sampler(s[0], s[1], start[k]) for k, s in case["samplers"].items()}
@@ -870,9 +936,9 @@ def _law_replicates(case, ctx, K, rs):
                 raise
             ctx.refused("law replicate", e)
             continue
-        if geweke or "y" not in out:
-            if "y" in v:
-                out["y"] = _arr(v["y"])
+        for k in v:
+            if k not in out:
+                out[k] = _arr(v[k])
         states.append(out)
     return ref, states
 
